@@ -130,6 +130,10 @@ class Compiler:
         self.functions: List[CompiledFunction] = []
         self._in_function: bool = False  # Track if we're compiling inside a function
         self._outer_locals: List[List[str]] = []  # Stack of outer scope locals
+        # The name a named function expression binds inside itself cannot be
+        # assigned: for the function being compiled, and for each enclosing one
+        self._const_name: Optional[str] = None
+        self._outer_const: List[Optional[str]] = []
         self._free_vars: List[str] = []  # Free variables captured from outer scopes
         self._cell_vars: List[str] = []  # Local variables captured by inner functions
         self.source_map: Dict[int, Tuple[int, int]] = (
@@ -346,6 +350,32 @@ class Compiler:
                 self._free_vars.append(name)
                 return len(self._free_vars) - 1
         return None
+
+    def _is_const_binding(self, name: str) -> bool:
+        """True when `name` refers to the self-binding of a named function
+        expression (this function's or an enclosing one's)."""
+        if name == self._const_name:
+            return True
+        if self._in_function and (
+            name in self.locals or name in self._cell_vars
+        ):
+            return False
+        for outer_locals, const in zip(
+            reversed(self._outer_locals), reversed(self._outer_const)
+        ):
+            if name in outer_locals:
+                return name == const
+        return False
+
+    def _emit_const_assignment_error(self) -> None:
+        """Assigning to the name of a named function expression is a TypeError."""
+        self._compile_expression(
+            NewExpression(
+                Identifier("TypeError"),
+                [StringLiteral("Assignment to constant variable.")],
+            )
+        )
+        self._emit(OpCode.THROW)
 
     def _is_in_outer_scope(self, name: str) -> bool:
         """Check if name exists in any outer scope."""
@@ -1189,8 +1219,11 @@ class Compiler:
         old_cell_vars = self._cell_vars
 
         # Push current locals to outer scope stack (for closure resolution)
+        old_const_name = self._const_name
         if self._in_function:
             self._outer_locals.append(old_locals[:])
+            self._outer_const.append(old_const_name)
+        self._const_name = None
 
         # New state for function
         self.bytecode = []
@@ -1246,6 +1279,8 @@ class Compiler:
         # Pop outer scope if we pushed it
         if old_in_function:
             self._outer_locals.pop()
+            self._outer_const.pop()
+        self._const_name = old_const_name
 
         # Restore state
         self.bytecode = old_bytecode
@@ -1285,8 +1320,10 @@ class Compiler:
         old_cell_vars = self._cell_vars
 
         # Push current locals to outer scope stack (for closure resolution)
+        old_const_name = self._const_name
         if self._in_function:
             self._outer_locals.append(old_locals[:])
+            self._outer_const.append(old_const_name)
 
         # New state for function
         # Locals: params first, then 'arguments' reserved slot
@@ -1296,7 +1333,13 @@ class Compiler:
 
         # For named function expressions, add the function name as a local
         # This allows recursive calls like: var f = function fact(n) { return n <= 1 ? 1 : n * fact(n-1); }
+        self._const_name = None
         if is_expression and name:
+            declared = set(self.locals)
+            self._collect_var_decls(body, declared)
+            if name not in declared:
+                # Not shadowed by a parameter, var or function of its own body
+                self._const_name = name
             self.locals.append(name)
 
         self.loop_stack = []
@@ -1348,6 +1391,8 @@ class Compiler:
         # Pop outer scope if we pushed it
         if old_in_function:
             self._outer_locals.pop()
+            self._outer_const.pop()
+        self._const_name = old_const_name
 
         # Restore state
         self.bytecode = old_bytecode
@@ -1538,7 +1583,11 @@ class Compiler:
 
         elif isinstance(node, UpdateExpression):
             # ++x or x++
-            if isinstance(node.argument, Identifier):
+            if isinstance(node.argument, Identifier) and self._is_const_binding(
+                node.argument.name
+            ):
+                self._emit_const_assignment_error()
+            elif isinstance(node.argument, Identifier):
                 name = node.argument.name
                 inc_op = OpCode.INC if node.operator == "++" else OpCode.DEC
 
@@ -1703,7 +1752,13 @@ class Compiler:
             self._patch_jump(jump_end)
 
         elif isinstance(node, AssignmentExpression):
-            if isinstance(node.left, Identifier):
+            if isinstance(node.left, Identifier) and self._is_const_binding(
+                node.left.name
+            ):
+                # The right-hand side is still evaluated, then the store fails
+                self._compile_expression(node.right)
+                self._emit_const_assignment_error()
+            elif isinstance(node.left, Identifier):
                 name = node.left.name
                 if node.operator == "=":
                     self._compile_named_value(node.right, name)
